@@ -47,6 +47,10 @@ def run(tier, seed):
               "size vector and TLC recomputes every output from the specification's stencil and neighbour relation. C->S (grids): on every campaign grid "
               "curl_bOverB_x/y/z at centre, xlow, ylow are compared with curl(b/B).grad(x/y/z) from an independent finite-difference oracle built from psi(R,Z) and "
               "fpol(psi) only, grad(y) taken from the grid (perpendicular to the radial grid direction, magnitude 1/(hy cos beta)); bxcv* = Bxy/2 * curl. "
+              "For the pointwise form (curvature_type curl(b/B)) every output must also equal, to 2e-8 of its largest value, the specification's curl(b/B) "
+              "(FieldOps!CurlDef: b/B = B/B^2 differentiated by dual numbers, model-checked against the closed form of calcCurvature in Fields.tla) of the "
+              "equilibrium's own psi derivatives, fpol and fpol', projected on grad(x), grad(y), grad(z); the evaluator used for that is compared with "
+              "FieldOps by TLC on a sample of lattice points in the same run. "
               "Pairs of orthogonal grids generated with the two curvature_type forms at three resolutions must agree within 6 / 4.5 / 2.5 per cent of the largest "
               "value away from the X-point rows. A case is one layout, grid or pair.")
     v.assumptions = ["the oracle differentiates the equilibrium object's own psi interpolant by 4th-order central differences (steps 1e-4 and 2e-3 m): 3e-3 / 5e-3 of the largest value is allowed",
@@ -92,6 +96,32 @@ def run(tier, seed):
         v.note("binding_selftest_stencil", {"mutants": 2, "rejected_with_expected_clause": okn})
         if okn != 2:
             v.fail_machinery("stencil binding self-test failed: %s" % mf)
+    # the evaluator behind the *IsDefinition clauses is the specification (TLC compares its rationals with FieldOps on lattice points)
+    from fractions import Fraction
+    import random as _random
+    from .. import fields_eval
+    from . import c18
+    rng = _random.Random(seed * 13 + 7)
+    ev_recs = []
+    for k in range(150 if tier == "quick" else 1500):
+        pt = {"R": rng.choice([1, 2, 3]), "p": rng.choice([0, 1, -2]), "F": rng.choice([-3, -1, 0, 2, 3]), "Fp": rng.choice([-2, -1, 0, 1, 3])}
+        for comp in ("pR", "pZ", "pRR", "pRZ", "pZZ"):
+            pt[comp] = rng.choice([-3, -2, -1, 0, 1, 2, 3])
+        e = fields_eval.fields(*[Fraction(pt[c]) for c in ("R", "p", "pR", "pZ", "pRR", "pRZ", "pZZ", "F", "Fp")])
+        ev_recs.append({"id": k + 1, "kind": "evalonly", "pt": pt,
+                        "ev": {n: [int(e[n].numerator), int(e[n].denominator)] if n in e else [0, 0] for n in fields_eval.NAMES + fields_eval.FNAMES + fields_eval.CURLNAMES}})
+    bad = copy.deepcopy(next(r for r in ev_recs if r["ev"]["curl_Z"] != [0, 0]))
+    bad["id"] = len(ev_recs) + 1
+    bad["ev"]["curl_Z"] = [bad["ev"]["curl_Z"][0] + 1, bad["ev"]["curl_Z"][1]]
+    dd = scratch("c07ev")
+    ef, eres = c18.judge(ev_recs + [bad], dd, "ev")
+    shutil.rmtree(dd, ignore_errors=True)
+    for r in eres:
+        v.add_tlc(r)
+    wrong = [i for i in ef if i != bad["id"]]
+    v.note("evaluator_vs_spec", {"lattice_points": len(ev_recs), "disagreeing": len(wrong), "corrupted_copy_rejected": int(("EvaluatorIsSpec", "curl_Z") in ef.get(bad["id"], ()))})
+    if wrong or ("EvaluatorIsSpec", "curl_Z") not in ef.get(bad["id"], ()):
+        v.fail_machinery("the curl(b/B) evaluator disagrees with FieldOps.tla: %s" % {i: sorted(ef[i]) for i in list(ef)[:3]})
     # grids: oracle
     names = campaign.campaign(tier)
     traces, gfailed = gridprops.run(v, "C07", tier, names=names)
